@@ -21,8 +21,9 @@ Proof. destruct s; reflexivity. Qed.
 Lemma add_var_only_top s x v s' : add_var s x v = Ok s' ->
   tl (scopes s') = tl (scopes s) /\ ctxs s' = ctxs s.
 Proof.
-  unfold add_var. destruct (smemk x (curr_scope s)); [discriminate|].
-  intros [= <-]. destruct s; simpl. split; reflexivity.
+  unfold add_var. destruct (scopes s) as [|sc rest] eqn:E; [discriminate|].
+  destruct (smemk x sc); [discriminate|].
+  intros [= <-]. destruct s; simpl in *. subst. split; reflexivity.
 Qed.
 
 Theorem declaration_dies_with_block s x v s1 :
@@ -45,8 +46,10 @@ Theorem shadow_visible_in_block s x v s1 :
   scopes s <> [] ->
   add_var (push_scope (push_ctx CBlock s)) x v = Ok s1 -> get_visible s1 x = Some v.
 Proof.
-  intros Hne. unfold add_var. destruct (smemk x _) eqn:Hm; [discriminate|]. intros [= <-].
+  intros Hne. unfold add_var.
   destruct s as [scs cs inc nq nc al qs als fs fm crs gs sb ll qd cd mq mc n1 n2 gst].
+  cbn [scopes push_scope push_ctx with_scopes with_ctxs ctxs].
+  destruct (smemk x []) eqn:Hm; [discriminate|]. intros [= <-].
   unfold get_visible, in_global, in_function, in_gate, in_block, nscopes, top_ctx, curr_scope, push_scope,
     push_ctx, with_scopes, with_ctxs in *. simpl in *.
   destruct scs as [|sc scs']; simpl; [contradiction|].
